@@ -33,6 +33,14 @@ def make_record(spec):
         t = np.arange(N)
         x = 1e4 * np.sin(0.011 * t + 0.3) + 1e-5 * x
         y = 0.7 * np.roll(x, 1) + 2e-6 * rng.standard_normal(N)
+    elif kind == "drift":
+        # non-stationary: the noise level grows by 3x across the record, so any re-weighting of segments shows
+        x = x * np.linspace(0.5, 1.5, N)
+        y = 0.9 * np.roll(x, 1) + 0.4 * rng.standard_normal(N) * np.linspace(1.5, 0.5, N)
+    elif kind == "hugeoffset":
+        # constant offsets 1e12 times the fluctuations: the mean must be removed before the projection (order >= 0 only)
+        y = -5e8 + 1e-3 * (0.5 * x + rng.standard_normal(N))
+        x = 1e9 + 1e-3 * x
     elif kind == "offset":
         y = 0.7 * x + 0.5 * rng.standard_normal(N) - 30.0
         x = x + 50.0 + 0.002 * np.arange(N)
@@ -177,8 +185,15 @@ def record_analysis(spec):
                     args = [np.ascontiguousarray(x), np.ascontiguousarray(y), starts, L, w, om]
                     if order >= 1:
                         args.append(core._build_Q(L, order))
-                    mxx, myy, mr, mi, m2 = (float(v) for v in getattr(core, name)(*args))
-                    sc = max(mxx, myy, 1e-300)
+                    if spec.get("refdef"):
+                        # ill-conditioned records: the reference is the definition itself, accumulated in long double
+                        from .drivers.C01 import _definition
+                        mxx, myy, mr, mi, m2 = _definition(x, y, starts, L, w, om, order, "csd")
+                    else:
+                        mxx, myy, mr, mi, m2 = (float(v) for v in getattr(core, name)(*args))
+                    sc = max(mxx, myy)
+                    if not (sc > 1e-150):          # an all-zero window (hann, L = 2): every statistic is exactly 0
+                        sc = 1.0
                     ev.append({"t": "refbin", "q": [qc(float(ref.XX[j]) / sc), qc(float(ref.YY[j]) / sc), qc(float(ref.XY[j].real) / sc), qc(float(ref.XY[j].imag) / sc),
                                                     qc(float(ref.M2[j]) / (sc * sc))],
                                "x": [qc(mxx / sc), qc(myy / sc), qc(mr / sc), qc(mi / sc), qc(m2 / (sc * sc))],
